@@ -113,7 +113,7 @@ def scalar_strategy(typ: str):
     if typ == 'f8':
         return st.floats(-1e30, 1e30, allow_nan=False, allow_infinity=False)
     if typ == 'f4':
-        return st.floats(-1e30, 1e30, allow_nan=False, allow_infinity=False, width=32)
+        return st.floats(-(2.0**99), 2.0**99, allow_nan=False, allow_infinity=False, width=32)
     if typ == 'i4':
         return st.integers(-2_000_000_000, 2_000_000_000)
     if typ == 'i8':
@@ -212,13 +212,13 @@ def expected_field(f: dict, v: dict, n: int):
     if dims == 'TP':
         return _rng_array(v['seed'], n, typ)
     if dims == 'TM':
-        return {m: float(_cast_scalar(x, typ)) for m, x in zip(MODES, v['m'])}
+        return {m: _cast_scalar(x, typ) for m, x in zip(MODES, v['m'])}
     if dims == 'TS':
         return {s: _cast_scalar(x, typ) for s, x in v['s'].items()}
     if dims == 'TSP':
         return {s: _rng_array(sd, n, typ) for s, sd in v['sseed'].items()}
     if dims == 'TSM':
-        return {s: {m: float(_cast_scalar(x, typ)) for m, x in zip(MODES, xs)} for s, xs in v['sm'].items()}
+        return {s: {m: _cast_scalar(x, typ) for m, x in zip(MODES, xs)} for s, xs in v['sm'].items()}
     raise ValueError(dims)
 
 
